@@ -53,6 +53,25 @@ def cases(ctx):
         yield "split", [12, a, rng.randint(-1, len(a) + 1)]
         yield "parent", [13, a]
         yield "choose", [16, a, o if rng.random() < 0.8 else None, rng.randrange(2)]
+    # dns.namedict.NameDict: lookups go through Name.__hash__/__eq__ (oracle-only, op 22)
+    for _ in range(ctx.n(150, 3000)):
+        q = nl.gen_labels(rng, budget=rng.choice([20, 60]))
+        keys = []
+        for _k in range(rng.randint(0, 5)):
+            r = rng.random()
+            if r < 0.6 and q:
+                k = q[rng.randrange(len(q)):]
+                k = nl.case_variant(rng, k) if rng.random() < 0.6 else k
+            elif r < 0.8:
+                k = nl.related(rng, q)
+            else:
+                k = nl.gen_labels(rng, budget=20)
+            if nl.fits(k):
+                keys.append(k)
+        if rng.random() < 0.7:
+            keys.append([])
+        if nl.fits(q):
+            yield "namedict", [22, keys, q]
     # successor / predecessor: last octet sweeps, boundary lengths
     for _ in range(ctx.n(300, 2500)):
         o = nl.gen_labels(rng, absolute=True, budget=rng.choice([5, 12, 60]))
@@ -171,7 +190,7 @@ def succ_cases(rng, o, shape, oct_):
 
 
 def in_model(kind, case):
-    return case[0] not in (20, 21) and not kind.endswith("-o")
+    return case[0] not in (20, 21, 22) and not kind.endswith("-o")
 
 
 def impl(case):
@@ -180,6 +199,23 @@ def impl(case):
         a, b, c = (nl.N(x) for x in case[1:4])
         return [a.fullcompare(b)[1], b.fullcompare(c)[1], a.fullcompare(c)[1], b.fullcompare(a)[1],
                 int(a == b), int(hash(a) == hash(b)), int(a < b), int(a <= b), int(a > b), int(a >= b), int(a != b)]
+    if op == 22:
+        import dns.namedict
+
+        try:
+            d = dns.namedict.NameDict()
+            for i, k in enumerate(case[1]):
+                d[nl.N(k)] = i
+            q = nl.N(case[2])
+            try:
+                k, v = d.get_deepest_match(q)
+                res = [nl.labels_of(k), v]
+            except KeyError:
+                res = [[b"KeyError"], -1]
+            probes = [int(nl.N(nl.lower_labels(k)) in d) for k in case[1]]
+            return [res, probes, len(d)]
+        except Exception as e:  # noqa
+            return nl.exc_code(e)
     if op == 21:
         try:
             a, o = nl.N(case[1]), nl.N(case[2])
@@ -231,7 +267,8 @@ def oracle(ctx, kind, case, out):
 
     op = case[0]
     if isinstance(out, Err):
-        if out.code >= 100 or out.code < 0:
+        if out.code >= 100 or out.code < 0 or (out.code == 12 and op != 12):
+            # Python-level exception (ValueError is only documented for split with a bad depth)
             fail("unexpected exception " + out.text)
         return F
     if op == 2:
@@ -267,6 +304,27 @@ def oracle(ctx, kind, case, out):
             fail("equal names hash differently")
         if (bool(lt), bool(le), bool(gt), bool(ge), bool(ne)) != (ab < 0, ab <= 0, ab > 0, ab >= 0, ab != 0):
             fail("rich comparisons disagree with fullcompare")
+    elif op == 22:
+        (mk, mv), probes, size = out
+        keys, q = case[1], case[2]
+        if not all(probes):
+            fail("a key is not found under its lower-cased spelling (hash/eq incoherent in a dict)")
+        distinct = {tuple(lower(x) for x in k) for k in keys}
+        if size != len(distinct):
+            fail("NameDict holds ci-equal keys separately")
+        # reference: the longest key that is ci-equal to a non-empty suffix of q; else the empty name
+        best = None
+        for i in range(len(q)):
+            suf = [lower(x) for x in q[i:]]
+            idx = [j for j, k in enumerate(keys) if [lower(x) for x in k] == suf]
+            if idx:
+                best = (q[i:], idx[-1])
+                break
+        if best is None:
+            idx = [j for j, k in enumerate(keys) if k == []]
+            best = ([], idx[-1]) if idx else ([b"KeyError"], -1)
+        if [lower(x) for x in mk] != [lower(x) for x in best[0]] or mv != best[1]:
+            fail("get_deepest_match is not the longest ci-matching superdomain key")
     elif op == 21:
         r, d, same, sub = out
         a, o = case[1], case[2]
